@@ -28,7 +28,7 @@ func init() {
 			"constants of every kind incl. strings with quotes/escapes and regexes with '/', random trees of depth <= 4. Each path is also built through the builder functions (jp.R().C(..).N(..) in both spellings) and must be the same expression. Each is printed (String and BracketString; Equation, Script and Filter strings), parsed back and printed again; the texts must be identical, " +
 			"and the re-parsed value must select the same elements / give the same truth value on a battery of data (equations also against S on the constructed tree). also indexes, union members and slice members at and near the int limits. also regex constants with slashes next to backslashes and jp.Slice values with more than three members. non-trivial: every case; distinct by construction (enumerations) or by digest",
 		Assumptions: []string{
-			"two adjacent Descent fragments and the Bracket marker fragment are not generated (not in the statement's list)",
+			"the Bracket marker fragment is not generated (not in the statement's list)",
 			"keys and string constants with invalid UTF-8 are expected to round-trip only up to U+FFFD replacement",
 			"a float constant with an integral value prints without a fraction: kind changes float->int are accepted when every comparison gives the same truth value, arithmetic with such constants is compared after the same conversion",
 		},
@@ -434,6 +434,23 @@ func run(c *mon.Ctx) {
 		ck.path(jpref.Path{jpspec.Root(), jpspec.Nth(a)}, "extreme-nth", sdata)
 		ck.path(jpref.Path{jpspec.Root(), jpspec.Child("a"), jpspec.Nth(a), jpspec.Nth(0)}, "extreme-nth", sdata)
 		ck.path(jpref.Path{jpspec.Root(), jpspec.Union(a, 0, "a")}, "extreme-union", sdata)
+	}
+	// two and three descents in a row, at the start, in the middle and at the end of a path
+	for _, pth := range []jpref.Path{
+		{jpspec.Root(), jpspec.Descent(), jpspec.Descent()},
+		{jpspec.Root(), jpspec.Descent(), jpspec.Descent(), jpspec.Child("a")},
+		{jpspec.Root(), jpspec.Descent(), jpspec.Descent(), jpspec.Nth(0)},
+		{jpspec.Root(), jpspec.Descent(), jpspec.Descent(), jpspec.Descent(), jpspec.Wild()},
+		{jpspec.Root(), jpspec.Child("a"), jpspec.Descent(), jpspec.Descent(), jpspec.Nth(1)},
+		{jpspec.Descent(), jpspec.Descent()},
+		{jpspec.At(), jpspec.Descent(), jpspec.Child("a"), jpspec.Descent(), jpspec.Descent()},
+	} {
+		si++
+		if !c.Mine(si) {
+			continue
+		}
+		c.Cover("adjacent-descents")
+		ck.path(pth, "adjacent-descents", sdata)
 	}
 	// slices with more members than start, end and step (constructible as jp.Slice{...}): the surplus is
 	// not printed, the text must still parse
